@@ -85,7 +85,7 @@ def truthiness_sites(fn: ast.FunctionDef):
     return out
 
 
-def check_index_contracts(res: Result, repo):
+def check_index_contracts(res: Result, repo, prop="C20"):
     """valid_index / absindex / reading_by_index against their contracts, by abstract interpretation of their bodies"""
     rule = "R-CONTRACT"
     L = A("cfg", "length")
@@ -105,7 +105,7 @@ def check_index_contracts(res: Result, repo):
         lo, hi = RAW + L, L - ONE - RAW
         if isinstance(p.ret, BoolV) and p.ret.cond is True:
             ok = (not none_path) and prove_ge0(lo, facts, []) and prove_ge0(hi, facts, [])
-            (res.ok(rule, {"helper": "valid_index", "path": "True", "implies": "-n <= i < n"}, nontrivial="valid_index:true") if ok else res.fail(rule, finding("C20", rule, vi, p.node, "valid_index returns True outside -n <= i < n (or for None)")))
+            (res.ok(rule, {"helper": "valid_index", "path": "True", "implies": "-n <= i < n"}, nontrivial="valid_index:true") if ok else res.fail(rule, finding(prop, rule, vi, p.node, "valid_index returns True outside -n <= i < n (or for None)")))
         elif isinstance(p.ret, BoolV) and p.ret.cond is False:
             if none_path:
                 res.ok(rule, {"helper": "valid_index", "path": "False (None)"})
@@ -114,9 +114,9 @@ def check_index_contracts(res: Result, repo):
             if not feasible(lins):
                 res.ok(rule, {"helper": "valid_index", "path": "False", "why": "path condition excludes every i with -n <= i < n"}, nontrivial="valid_index:false")
             else:
-                res.fail(rule, finding("C20", rule, vi, p.node, "valid_index rejects an index inside -n <= i < n: positive and negative indices no longer address the same candle"))
+                res.fail(rule, finding(prop, rule, vi, p.node, "valid_index rejects an index inside -n <= i < n: positive and negative indices no longer address the same candle"))
         else:
-            res.fail(rule, finding("C20", rule, vi, p.node, f"valid_index returns {p.ret!r}, not a constant truth value"))
+            res.fail(rule, finding(prop, rule, vi, p.node, f"valid_index returns {p.ret!r}, not a constant truth value"))
     # ---- reading_by_index: None exactly for invalid indices
     rbi = repo.func("hexital.utils.candles", "reading_by_index")
     fa = analyse_function(repo, rbi)
@@ -132,7 +132,7 @@ def check_index_contracts(res: Result, repo):
             elif not feasible(facts_to_lin(facts, [lo, hi, N - ONE])):
                 res.ok(rule, {"helper": "reading_by_index", "path": "None", "why": "excludes all valid indices"})
             else:
-                res.fail(rule, finding("C20", rule, rbi, p.node, "reading_by_index returns None for an index inside -n <= i < n (e.g. i = -n): negative and positive indices disagree"))
+                res.fail(rule, finding(prop, rule, rbi, p.node, "reading_by_index returns None for an index inside -n <= i < n (e.g. i = -n): negative and positive indices disagree"))
         else:
             n_val += 1
             a = poly._single_atom(p.ret.f) if isinstance(p.ret, Num) else None
@@ -140,9 +140,9 @@ def check_index_contracts(res: Result, repo):
             if (valid or (prove_ge0(lo, facts, []) and prove_ge0(hi, facts, []))) and pos_ok:
                 res.ok(rule, {"helper": "reading_by_index", "path": "value", "reads": "candles[index] through reading_by_candle"}, nontrivial="rbi:value")
             else:
-                res.fail(rule, finding("C20", rule, rbi, p.node, "reading_by_index reads without establishing -n <= i < n, or not at candles[index]"))
+                res.fail(rule, finding(prop, rule, rbi, p.node, "reading_by_index reads without establishing -n <= i < n, or not at candles[index]"))
     if n_val == 0:
-        res.fail(rule, finding("C20", rule, rbi, rbi.node, "reading_by_index never returns a reading", construct="reading_by_index: value path"))
+        res.fail(rule, finding(prop, rule, rbi, rbi.node, "reading_by_index never returns a reading", construct="reading_by_index: value path"))
     # ---- absindex
     ab = repo.func("hexital.utils.indexing", "absindex")
     fa = analyse_function(repo, ab)
@@ -150,10 +150,10 @@ def check_index_contracts(res: Result, repo):
         facts = tuple(p.state.facts)
         if ("raw-none",) in facts:
             ok = isinstance(p.ret, Num) and p.ret.f == L - ONE
-            (res.ok(rule, {"helper": "absindex", "path": "None -> n-1"}) if ok else res.fail(rule, finding("C20", rule, ab, p.node, "absindex(None, n) must be n-1")))
+            (res.ok(rule, {"helper": "absindex", "path": "None -> n-1"}) if ok else res.fail(rule, finding(prop, rule, ab, p.node, "absindex(None, n) must be n-1")))
         elif isinstance(p.ret, NoneV):
             ok = ("not", ("opaque", "valid_index(index, length)")) in facts or any(isinstance(c, tuple) and c[0] == "not" and "valid" in repr(c) for c in facts)
-            (res.ok(rule, {"helper": "absindex", "path": "invalid -> None"}) if ok else res.fail(rule, finding("C20", rule, ab, p.node, "absindex returns None on a path that is not the invalid-index path")))
+            (res.ok(rule, {"helper": "absindex", "path": "invalid -> None"}) if ok else res.fail(rule, finding(prop, rule, ab, p.node, "absindex returns None on a path that is not the invalid-index path")))
         elif isinstance(p.ret, Num):
             neg = any(isinstance(c, tuple) and c[0] == "cmp" and c[1] == "<" and c[2] == RAW for c in facts)
             if not neg and not prove_ge0(RAW, facts, []) and not any(isinstance(c, tuple) and c[0] == "cmp" and c[1] == "<=" and c[2] == -RAW for c in facts):
@@ -163,12 +163,12 @@ def check_index_contracts(res: Result, repo):
             if p.ret.f == want:
                 res.ok(rule, {"helper": "absindex", "path": "i<0 -> n+i" if neg else "i>=0 -> i"}, nontrivial=f"absindex:{neg}")
             else:
-                res.fail(rule, finding("C20", rule, ab, p.node, f"absindex returns {p.ret.f!r} where {want!r} is required"))
+                res.fail(rule, finding(prop, rule, ab, p.node, f"absindex returns {p.ret.f!r} where {want!r} is required"))
         else:
-            res.fail(rule, finding("C20", rule, ab, p.node, f"absindex returns {p.ret!r}"))
+            res.fail(rule, finding(prop, rule, ab, p.node, f"absindex returns {p.ret!r}"))
 
 
-def check_resolver_shape(res: Result, repo):
+def check_resolver_shape(res: Result, repo, prop="C20"):
     """reading_by_candle: dotted -> nested field; else candle attribute if not None; else exact key in indicators, then sub_indicators"""
     rule = "R-CONTRACT"
     rbc = repo.func("hexital.utils.candles", "reading_by_candle")
@@ -195,13 +195,13 @@ def check_resolver_shape(res: Result, repo):
             if isinstance(n, ast.Compare) and any(isinstance(o, (ast.In, ast.NotIn)) for o in n.ops):
                 rhs = ast.unparse(n.comparators[0])
                 if rhs in ("key", "name") and ast.unparse(n.left) in ("name", "key", "main_name"):
-                    res.fail(rule, finding("C20", rule, f, n, "reading names are matched by substring, not by equality"))
+                    res.fail(rule, finding(prop, rule, f, n, "reading names are matched by substring, not by equality"))
         keycmp = [(f, n) for f, n in nodes if isinstance(n, ast.Compare) and ast.unparse(n.left) == "key"]
         for f, n in keycmp:
             if all(isinstance(o, ast.Eq) for o in n.ops):
                 res.ok(rule, {"helper": fn.name, "site": norm_construct(n), "why": "exact key match"})
             else:
-                res.fail(rule, finding("C20", rule, f, n, "key comparison is not equality"))
+                res.fail(rule, finding(prop, rule, f, n, "key comparison is not equality"))
     # order: indicators before sub_indicators in both resolvers
     for fn in resolvers:
         order = [n.attr for f, n in closure_nodes(fn) if isinstance(n, ast.Attribute) and n.attr in ("indicators", "sub_indicators")]
@@ -210,12 +210,12 @@ def check_resolver_shape(res: Result, repo):
         if first_ind is not None and first_sub is not None:
             res.ok(rule, {"helper": fn.name, "lookup": "indicators and sub_indicators both searched"})
         else:
-            res.fail(rule, finding("C20", rule, fn, fn.node, "resolver no longer searches both reading dicts", construct=f"{fn.name}: dict lookups"))
+            res.fail(rule, finding(prop, rule, fn, fn.node, "resolver no longer searches both reading dicts", construct=f"{fn.name}: dict lookups"))
     dotted = any(call_name(c) == "_nested_indicator" for c in calls_in(rbc.node)) or any(isinstance(n, ast.Call) and call_name(n) == "split" for _, n in closure_nodes(rbc))
     if dotted and any(isinstance(n, ast.Call) and call_name(n) == "getattr" for _, n in closure_nodes(rbc)):
         res.ok(rule, {"helper": "reading_by_candle", "why": "dotted names go to _nested_indicator; candle fields via getattr"})
     else:
-        res.fail(rule, finding("C20", rule, rbc, rbc.node, "reading_by_candle no longer resolves dotted names / candle fields", construct="reading_by_candle: dotted + getattr"))
+        res.fail(rule, finding(prop, rule, rbc, rbc.node, "reading_by_candle no longer resolves dotted names / candle fields", construct="reading_by_candle: dotted + getattr"))
 
 
 from ..framework_rules import check_active_cursor, check_name_sanitised
@@ -359,4 +359,11 @@ def run(repo, tier) -> Result:
     from ..framework_rules import check_name_matching
 
     check_name_matching("C20", res, repo)
+    # Hexital.reading looks the name up on the managers in its registry, Indicator.reading on the manager the indicator is bound to:
+    # they agree only while every indicator's manager is the registered one for its timeframe
+    from ..framework_rules import check_registry_writers
+    from .c08 import check_binding
+
+    check_binding(res, repo, prop="C20", raw_required=False)
+    check_registry_writers("C20", res, repo)
     return res
